@@ -500,181 +500,187 @@ def check(ctx):
     for name in ("__init__", "_convertOther", "__eq__", "__lt__", "__gt__", "__le__", "__ge__", "__add__"):
         ctx.func(RFC, f"SerialNumber.{name}")
     ip = Interp(cls)
-
-    # ---- base class brings no comparison / arithmetic behaviour -----------------------------------------------
-    bases = base_names(cls)
-    inert = True
-    detail = []
-    for b in bases:
-        if b == "object":
-            continue
-        if b != "FancyStrMixin":
-            inert = False
-            detail.append(f"unexpected base {b}")
-            continue
-        util = ctx.mod("python/util.py")
-        bc = util.find("FancyStrMixin")
-        if not isinstance(bc, ast.ClassDef):
-            raise AnalysisError("C34: anchor vanished: twisted.python.util.FancyStrMixin")
-        bad = [m for m in methods(bc) if m in ("__eq__", "__ne__", "__lt__", "__gt__", "__le__", "__ge__", "__add__", "__radd__", "__getattr__",
-                                                "__getattribute__", "__setattr__")]
-        if bad or base_names(bc):
-            inert = False
-            detail.append(f"FancyStrMixin defines {bad} / has bases {base_names(bc)}")
-    ctx.check(inert, "rfc1982/base-is-inert", Q + " | bases", "a base class of SerialNumber contributes comparison/arithmetic behaviour "
-              "that the evaluation does not model: " + "; ".join(detail))
-
-    # ---- fields are written only by __init__ -------------------------------------------------------------------
-    fields = {"_number", "_serialBits", "_modulo", "_halfRing", "_maxAdd"}
-    acc = class_accesses(mod, cls, fields, receivers=None)
-    for a in acc:
-        ctx.check(a.func == "SerialNumber.__init__" and a.recv == "self", "rfc1982/fields-immutable", ctx.construct(Q.rsplit(".", 1)[0] + "." + a.func, a.node),
-                  f"{a.recv}.{a.attr} is modified outside __init__: a serial number's value/ring would change under comparisons")
-    ctx.floor("rfc1982/fields-immutable", len([a for a in acc if a.func == "SerialNumber.__init__"]), 5, "field initialisations")
-    # module-level code must not patch the class either
-    patched = [st for st in mod.tree.body if isinstance(st, (ast.Assign, ast.AugAssign, ast.Delete))
-               and any((dotted(t) or "").startswith("SerialNumber.") for t in (st.targets if not isinstance(st, ast.AugAssign) else [st.target]))]
-    ctx.check(not patched, "rfc1982/fields-immutable", Q + " | <module-level patching>", "SerialNumber is patched at module level: " +
-              "; ".join(src(p) for p in patched))
-
-    # ---- ring constants for widths 1..64 -------------------------------------------------------------------------
-    bad_const: Dict[str, str] = {}
-    n_const = 0
-    for bits in range(1, 65):
-        m = 1 << bits
-        for number in (0, 1, m - 1, m, m + 1, -1, 3 * m + 5, m // 2):
-            kind, o = _run(lambda: ip.construct(number, bits))
-            n_const += 1
-            if kind != "value":
-                bad_const.setdefault("__init__", f"SerialNumber({number}, {bits}) raises {o}")
-                continue
-            want = {"_serialBits": bits, "_modulo": m, "_halfRing": m >> 1, "_maxAdd": (m >> 1) - 1, "_number": number % m}
-            for k, v in want.items():
-                got = o.fields.get(k, "<unset>")
-                if got != v or isinstance(got, bool):
-                    bad_const.setdefault(k, f"SerialNumber({number}, serialBits={bits}).{k} = {got!r}, RFC 1982 requires {v}")
-    for k in ("_serialBits", "_modulo", "_halfRing", "_maxAdd", "_number"):
-        ctx.check(k not in bad_const and "__init__" not in bad_const, "rfc1982/ring-constants", f"{Q}.__init__ | self.{k}",
-                  bad_const.get(k) or bad_const.get("__init__", ""), detail=f"{n_const} (number, width) pairs, widths 1..64")
-    # default width is 32 (DNS serials)
-    kind, o = _run(lambda: ip.construct(5))
-    ctx.check(kind == "value" and o.fields.get("_serialBits") == 32, "rfc1982/ring-constants", f"{Q}.__init__ | default serialBits",
-              f"SerialNumber(5) has serialBits {getattr(o, 'fields', {}).get('_serialBits') if kind == 'value' else o}, DNS serial numbers are 32 bits wide")
-    if bad_const:
-        # comparisons on a broken ring would only repeat the same defect with less precise messages
-        ctx.note("ring constants wrong: comparison/addition tables evaluated on the ring as constructed")
-
-    # ---- comparison table -------------------------------------------------------------------------------------
-    results: Dict[Tuple[str, str], List[Optional[str]]] = {}
-    evaluated = 0
     exhaustive = EXHAUSTIVE_THOROUGH if ctx.tier == "thorough" else EXHAUSTIVE_QUICK
     widths = tuple(sorted(set(exhaustive) | set(BOUNDARY_WIDTHS)))
     ctx.extra["widths_exhaustive"] = list(exhaustive)
     ctx.extra["widths_boundary_representatives"] = [w for w in widths if w not in exhaustive]
-    for bits in widths:
-        for a, b in _pairs(bits, bits in exhaustive):
-            kind, objs = _run(lambda: (ip.construct(a, bits), ip.construct(b, bits)))
-            if kind != "value":
-                continue  # already reported by ring-constants
-            x, y = objs
-            want = _oracle(a, b, bits)
-            cell = _cell(a, b, bits)
-            for meth, op in _OPS.items():
-                kind, got = _run(lambda: ip.compare(op, x, y))
-                evaluated += 1
-                slot = results.setdefault((meth, cell), [])
-                if kind == "raised":
-                    slot.append(f"bits={bits} a={a} b={b}: a {_SYM[meth]} b raises {got}")
-                elif got is NOTIMPL or not isinstance(got, bool) or got != want[meth]:
-                    slot.append(f"bits={bits} a={a} b={b}: a {_SYM[meth]} b is {got!r}, RFC 1982 3.2 requires {want[meth]}")
-                else:
-                    slot.append(None)
-    cells_seen = {c for (_, c) in results}
-    ctx.floor("rfc1982/compare-table", len(cells_seen), 7, "cells of sign(a-b) x cmp(|a-b|, halfRing)")
-    order = list(_OPS)
-    for (meth, cell), outcomes in sorted(results.items(), key=lambda kv: (order.index(kv[0][0]), kv[0][1])):
-        bad = [o for o in outcomes if o]
-        ctx.check(not bad, "rfc1982/compare-table", f"{Q}.{meth} | {cell}", (bad[0] + f" ({len(bad)} of {len(outcomes)} evaluated pairs of this cell disagree)") if bad else "",
-                  detail=f"{len(outcomes)} pairs evaluated")
-    ctx.extra["pairs_evaluated"] = evaluated
+
+    # ---- base class brings no comparison / arithmetic behaviour -----------------------------------------------
+    with ctx.section("base class"):
+        bases = base_names(cls)
+        inert = True
+        detail = []
+        for b in bases:
+            if b == "object":
+                continue
+            if b != "FancyStrMixin":
+                inert = False
+                detail.append(f"unexpected base {b}")
+                continue
+            util = ctx.mod("python/util.py")
+            bc = util.find("FancyStrMixin")
+            if not isinstance(bc, ast.ClassDef):
+                raise AnalysisError("C34: anchor vanished: twisted.python.util.FancyStrMixin")
+            bad = [m for m in methods(bc) if m in ("__eq__", "__ne__", "__lt__", "__gt__", "__le__", "__ge__", "__add__", "__radd__", "__getattr__",
+                                                    "__getattribute__", "__setattr__")]
+            if bad or base_names(bc):
+                inert = False
+                detail.append(f"FancyStrMixin defines {bad} / has bases {base_names(bc)}")
+        ctx.check(inert, "rfc1982/base-is-inert", Q + " | bases", "a base class of SerialNumber contributes comparison/arithmetic behaviour "
+                  "that the evaluation does not model: " + "; ".join(detail))
+
+    # ---- fields are written only by __init__ -------------------------------------------------------------------
+    with ctx.section("field writes"):
+        fields = {"_number", "_serialBits", "_modulo", "_halfRing", "_maxAdd"}
+        acc = class_accesses(mod, cls, fields, receivers=None)
+        for a in acc:
+            ctx.check(a.func == "SerialNumber.__init__" and a.recv == "self", "rfc1982/fields-immutable", ctx.construct(Q.rsplit(".", 1)[0] + "." + a.func, a.node),
+                      f"{a.recv}.{a.attr} is modified outside __init__: a serial number's value/ring would change under comparisons")
+        ctx.floor("rfc1982/fields-immutable", len([a for a in acc if a.func == "SerialNumber.__init__"]), 5, "field initialisations")
+        # module-level code must not patch the class either
+        patched = [st for st in mod.tree.body if isinstance(st, (ast.Assign, ast.AugAssign, ast.Delete))
+                   and any((dotted(t) or "").startswith("SerialNumber.") for t in (st.targets if not isinstance(st, ast.AugAssign) else [st.target]))]
+        ctx.check(not patched, "rfc1982/fields-immutable", Q + " | <module-level patching>", "SerialNumber is patched at module level: " +
+                  "; ".join(src(p) for p in patched))
+
+    # ---- ring constants for widths 1..64 -------------------------------------------------------------------------
+    with ctx.section("ring constants"):
+        bad_const: Dict[str, str] = {}
+        n_const = 0
+        for bits in range(1, 65):
+            m = 1 << bits
+            for number in (0, 1, m - 1, m, m + 1, -1, 3 * m + 5, m // 2):
+                kind, o = _run(lambda: ip.construct(number, bits))
+                n_const += 1
+                if kind != "value":
+                    bad_const.setdefault("__init__", f"SerialNumber({number}, {bits}) raises {o}")
+                    continue
+                want = {"_serialBits": bits, "_modulo": m, "_halfRing": m >> 1, "_maxAdd": (m >> 1) - 1, "_number": number % m}
+                for k, v in want.items():
+                    got = o.fields.get(k, "<unset>")
+                    if got != v or isinstance(got, bool):
+                        bad_const.setdefault(k, f"SerialNumber({number}, serialBits={bits}).{k} = {got!r}, RFC 1982 requires {v}")
+        for k in ("_serialBits", "_modulo", "_halfRing", "_maxAdd", "_number"):
+            ctx.check(k not in bad_const and "__init__" not in bad_const, "rfc1982/ring-constants", f"{Q}.__init__ | self.{k}",
+                      bad_const.get(k) or bad_const.get("__init__", ""), detail=f"{n_const} (number, width) pairs, widths 1..64")
+        # default width is 32 (DNS serials)
+        kind, o = _run(lambda: ip.construct(5))
+        ctx.check(kind == "value" and o.fields.get("_serialBits") == 32, "rfc1982/ring-constants", f"{Q}.__init__ | default serialBits",
+                  f"SerialNumber(5) has serialBits {getattr(o, 'fields', {}).get('_serialBits') if kind == 'value' else o}, DNS serial numbers are 32 bits wide")
+        if bad_const:
+            # comparisons on a broken ring would only repeat the same defect with less precise messages
+            ctx.note("ring constants wrong: comparison/addition tables evaluated on the ring as constructed")
+
+    # ---- comparison table -------------------------------------------------------------------------------------
+    with ctx.section("comparison table"):
+        results: Dict[Tuple[str, str], List[Optional[str]]] = {}
+        evaluated = 0
+        for bits in widths:
+            for a, b in _pairs(bits, bits in exhaustive):
+                kind, objs = _run(lambda: (ip.construct(a, bits), ip.construct(b, bits)))
+                if kind != "value":
+                    continue  # already reported by ring-constants
+                x, y = objs
+                want = _oracle(a, b, bits)
+                cell = _cell(a, b, bits)
+                for meth, op in _OPS.items():
+                    kind, got = _run(lambda: ip.compare(op, x, y))
+                    evaluated += 1
+                    slot = results.setdefault((meth, cell), [])
+                    if kind == "raised":
+                        slot.append(f"bits={bits} a={a} b={b}: a {_SYM[meth]} b raises {got}")
+                    elif got is NOTIMPL or not isinstance(got, bool) or got != want[meth]:
+                        slot.append(f"bits={bits} a={a} b={b}: a {_SYM[meth]} b is {got!r}, RFC 1982 3.2 requires {want[meth]}")
+                    else:
+                        slot.append(None)
+        cells_seen = {c for (_, c) in results}
+        ctx.floor("rfc1982/compare-table", len(cells_seen), 7, "cells of sign(a-b) x cmp(|a-b|, halfRing)")
+        order = list(_OPS)
+        for (meth, cell), outcomes in sorted(results.items(), key=lambda kv: (order.index(kv[0][0]), kv[0][1])):
+            bad = [o for o in outcomes if o]
+            ctx.check(not bad, "rfc1982/compare-table", f"{Q}.{meth} | {cell}", (bad[0] + f" ({len(bad)} of {len(outcomes)} evaluated pairs of this cell disagree)") if bad else "",
+                      detail=f"{len(outcomes)} pairs evaluated")
+        ctx.extra["pairs_evaluated"] = evaluated
 
     # ---- addition ---------------------------------------------------------------------------------------------------
-    add_res: Dict[Tuple[str, str], List[Optional[str]]] = {}
-    for bits in widths:
-        m = 1 << bits
-        h = m >> 1
-        if bits in EXHAUSTIVE_QUICK:
-            sv, nv = range(m), range(m)
-        else:
-            sv = sorted({0, 1, h - 1, h, h + 1, m - 1})
-            nv = sorted({0, 1, 2, h - 2, h - 1, h, h + 1, m - 1})
-        for s in sv:
-            for n in nv:
-                kind, objs = _run(lambda: (ip.construct(s, bits), ip.construct(n, bits)))
-                if kind != "value":
-                    continue
-                x, y = objs
-                region = "n=maxAdd" if n == h - 1 else ("n=0" if n == 0 else ("0<n<maxAdd" if n < h - 1 else ("n=maxAdd+1" if n == h else "n>maxAdd+1")))
-                kind, got = _run(lambda: ip._dunder(x, "__add__", y))
-                if n <= h - 1:
-                    slot = add_res.setdefault(("rfc1982/add-value", region), [])
-                    if n > 0:
-                        add_res.setdefault(("rfc1982/add-greater", region), [])
-                    if kind == "raised":
-                        slot.append(f"bits={bits}: SerialNumber({s}) + SerialNumber({n}) raises {got} although n <= 2^(bits-1)-1 = {h - 1}")
+    with ctx.section("addition"):
+        add_res: Dict[Tuple[str, str], List[Optional[str]]] = {}
+        for bits in widths:
+            m = 1 << bits
+            h = m >> 1
+            if bits in EXHAUSTIVE_QUICK:
+                sv, nv = range(m), range(m)
+            else:
+                sv = sorted({0, 1, h - 1, h, h + 1, m - 1})
+                nv = sorted({0, 1, 2, h - 2, h - 1, h, h + 1, m - 1})
+            for s in sv:
+                for n in nv:
+                    kind, objs = _run(lambda: (ip.construct(s, bits), ip.construct(n, bits)))
+                    if kind != "value":
                         continue
-                    if not isinstance(got, _Obj):
-                        slot.append(f"bits={bits}: SerialNumber({s}) + SerialNumber({n}) returns {got!r}")
-                        continue
-                    if got.fields.get("_number") != (s + n) % m or got.fields.get("_serialBits") != bits or got.fields.get("_modulo") != m:
-                        slot.append(f"bits={bits}: SerialNumber({s}) + SerialNumber({n}) = {got!r}, RFC 1982 3.1 requires ({s}+{n}) mod 2^{bits} = {(s + n) % m} in the same width")
+                    x, y = objs
+                    region = "n=maxAdd" if n == h - 1 else ("n=0" if n == 0 else ("0<n<maxAdd" if n < h - 1 else ("n=maxAdd+1" if n == h else "n>maxAdd+1")))
+                    kind, got = _run(lambda: ip._dunder(x, "__add__", y))
+                    if n <= h - 1:
+                        slot = add_res.setdefault(("rfc1982/add-value", region), [])
+                        if n > 0:
+                            add_res.setdefault(("rfc1982/add-greater", region), [])
+                        if kind == "raised":
+                            slot.append(f"bits={bits}: SerialNumber({s}) + SerialNumber({n}) raises {got} although n <= 2^(bits-1)-1 = {h - 1}")
+                            continue
+                        if not isinstance(got, _Obj):
+                            slot.append(f"bits={bits}: SerialNumber({s}) + SerialNumber({n}) returns {got!r}")
+                            continue
+                        if got.fields.get("_number") != (s + n) % m or got.fields.get("_serialBits") != bits or got.fields.get("_modulo") != m:
+                            slot.append(f"bits={bits}: SerialNumber({s}) + SerialNumber({n}) = {got!r}, RFC 1982 3.1 requires ({s}+{n}) mod 2^{bits} = {(s + n) % m} in the same width")
+                        else:
+                            slot.append(None)
+                        if n > 0:
+                            slot = add_res.setdefault(("rfc1982/add-greater", region), [])
+                            k2, g2 = _run(lambda: ip.compare(ast.Gt, got, x))
+                            k3, g3 = _run(lambda: ip.compare(ast.Lt, x, got))
+                            ok = k2 == "value" and g2 is True and k3 == "value" and g3 is True
+                            slot.append(None if ok else f"bits={bits}: s={s}, n={n}: (s+n) > s is {g2!r} and s < (s+n) is {g3!r}; both must be True")
                     else:
-                        slot.append(None)
-                    if n > 0:
-                        slot = add_res.setdefault(("rfc1982/add-greater", region), [])
-                        k2, g2 = _run(lambda: ip.compare(ast.Gt, got, x))
-                        k3, g3 = _run(lambda: ip.compare(ast.Lt, x, got))
-                        ok = k2 == "value" and g2 is True and k3 == "value" and g3 is True
-                        slot.append(None if ok else f"bits={bits}: s={s}, n={n}: (s+n) > s is {g2!r} and s < (s+n) is {g3!r}; both must be True")
-                else:
-                    slot = add_res.setdefault(("rfc1982/add-refuses-large", region), [])
-                    if kind == "raised" and got == "ArithmeticError":
-                        slot.append(None)
-                    elif kind == "raised":
-                        slot.append(f"bits={bits}: SerialNumber({s}) + SerialNumber({n}) raises {got}, not ArithmeticError")
-                    else:
-                        slot.append(f"bits={bits}: SerialNumber({s}) + SerialNumber({n}) is accepted ({got!r}) although n > 2^(bits-1)-1 = {h - 1} (undefined by RFC 1982 3.1)")
-    ctx.floor("rfc1982/add", len(add_res), 7, "addition regions")
-    for (rule, region), outcomes in sorted(add_res.items()):
-        bad = [o for o in outcomes if o]
-        ctx.check(not bad, rule, f"{Q}.__add__ | {region}", (bad[0] + f" ({len(bad)} of {len(outcomes)} evaluated cases disagree)") if bad else "",
-                  detail=f"{len(outcomes)} cases evaluated")
+                        slot = add_res.setdefault(("rfc1982/add-refuses-large", region), [])
+                        if kind == "raised" and got == "ArithmeticError":
+                            slot.append(None)
+                        elif kind == "raised":
+                            slot.append(f"bits={bits}: SerialNumber({s}) + SerialNumber({n}) raises {got}, not ArithmeticError")
+                        else:
+                            slot.append(f"bits={bits}: SerialNumber({s}) + SerialNumber({n}) is accepted ({got!r}) although n > 2^(bits-1)-1 = {h - 1} (undefined by RFC 1982 3.1)")
+        ctx.floor("rfc1982/add", len(add_res), 7, "addition regions")
+        for (rule, region), outcomes in sorted(add_res.items()):
+            bad = [o for o in outcomes if o]
+            ctx.check(not bad, rule, f"{Q}.__add__ | {region}", (bad[0] + f" ({len(bad)} of {len(outcomes)} evaluated cases disagree)") if bad else "",
+                      detail=f"{len(outcomes)} cases evaluated")
 
     # ---- operands of another width / type are refused ------------------------------------------------------------------------
-    for wa, wb in ((8, 16), (16, 8), (32, 31), (1, 2)):
-        x = _run(lambda: ip.construct(1, wa))[1]
-        y = _run(lambda: ip.construct(1, wb))[1]
-        if not (isinstance(x, _Obj) and isinstance(y, _Obj)):
-            continue
-        for meth, op in _OPS.items():
-            kind, got = _run(lambda: ip.compare(op, x, y))
-            if meth == "__eq__":
-                ok = kind == "value" and got is False
-                msg = f"SerialNumber(1, {wa}) == SerialNumber(1, {wb}) is {got!r}: numbers of different rings compare equal"
-            else:
-                ok = kind == "raised" and got == "TypeError"
-                msg = f"SerialNumber(1, {wa}) {_SYM[meth]} SerialNumber(1, {wb}) gives {got!r} instead of TypeError: serial numbers of different widths are compared"
-            ctx.check(ok, "rfc1982/refuses-other-width", f"{Q}.{meth} | serialBits {wa} vs {wb}", msg)
-        kind, got = _run(lambda: ip._dunder(x, "__add__", y))
-        ctx.check((kind == "value" and got is NOTIMPL) or (kind == "raised" and got == "TypeError"), "rfc1982/refuses-other-width", f"{Q}.__add__ | serialBits {wa} vs {wb}",
-                  f"SerialNumber(1, {wa}) + SerialNumber(1, {wb}) gives {got!r} instead of NotImplemented/TypeError")
-    x = _run(lambda: ip.construct(1, 8))[1]
-    if isinstance(x, _Obj):
-        for meth, op in _OPS.items():
-            kind, got = _run(lambda: ip.compare(op, x, 1))
-            ok = (kind == "value" and got is False) if meth == "__eq__" else (kind == "raised" and got == "TypeError")
-            ctx.check(ok, "rfc1982/refuses-other-width", f"{Q}.{meth} | plain int operand",
-                      f"SerialNumber(1, 8) {_SYM[meth]} 1 gives {got!r}: a plain integer is accepted as a serial number of unknown width")
+    with ctx.section("refusal of other widths/types"):
+        for wa, wb in ((8, 16), (16, 8), (32, 31), (1, 2)):
+            x = _run(lambda: ip.construct(1, wa))[1]
+            y = _run(lambda: ip.construct(1, wb))[1]
+            if not (isinstance(x, _Obj) and isinstance(y, _Obj)):
+                continue
+            for meth, op in _OPS.items():
+                kind, got = _run(lambda: ip.compare(op, x, y))
+                if meth == "__eq__":
+                    ok = kind == "value" and got is False
+                    msg = f"SerialNumber(1, {wa}) == SerialNumber(1, {wb}) is {got!r}: numbers of different rings compare equal"
+                else:
+                    ok = kind == "raised" and got == "TypeError"
+                    msg = f"SerialNumber(1, {wa}) {_SYM[meth]} SerialNumber(1, {wb}) gives {got!r} instead of TypeError: serial numbers of different widths are compared"
+                ctx.check(ok, "rfc1982/refuses-other-width", f"{Q}.{meth} | serialBits {wa} vs {wb}", msg)
+            kind, got = _run(lambda: ip._dunder(x, "__add__", y))
+            ctx.check((kind == "value" and got is NOTIMPL) or (kind == "raised" and got == "TypeError"), "rfc1982/refuses-other-width", f"{Q}.__add__ | serialBits {wa} vs {wb}",
+                      f"SerialNumber(1, {wa}) + SerialNumber(1, {wb}) gives {got!r} instead of NotImplemented/TypeError")
+        x = _run(lambda: ip.construct(1, 8))[1]
+        if isinstance(x, _Obj):
+            for meth, op in _OPS.items():
+                kind, got = _run(lambda: ip.compare(op, x, 1))
+                ok = (kind == "value" and got is False) if meth == "__eq__" else (kind == "raised" and got == "TypeError")
+                ctx.check(ok, "rfc1982/refuses-other-width", f"{Q}.{meth} | plain int operand",
+                          f"SerialNumber(1, 8) {_SYM[meth]} 1 gives {got!r}: a plain integer is accepted as a serial number of unknown width")
 
 
 # --------------------------------------------------------------------------------------------------
